@@ -572,6 +572,47 @@ pub fn enumerate(seed: u64, tier: Tier, visit: &mut Visit) {
 			return;
 		}
 	}
+	// javac-compiled classes: no field map, so offset-based mutations
+	let corpus = crate::corpus::load();
+	for (ci, (_, bytes)) in corpus.iter().enumerate() {
+		if bytes.len() > 8000 || (!thorough && ci % 3 != 0) {
+			continue;
+		}
+		let n_edits = if thorough { 600 } else { 150 };
+		let edits: Vec<(u32, u8, u8)> = (0..n_edits).map(|_| (sm.draw(&any::<u32>()), sm.draw(&any::<u8>()), sm.draw(&(0u8..4)))).collect();
+		for target in [Target::DukeTree, Target::DukeUnit] {
+			for (pos, val, kind) in &edits {
+				let p = 8 + (*pos as usize) % (bytes.len() - 8);
+				let m = Meta { target, fault: ["corpus_byte_edit", "corpus_u16_overwrite", "corpus_u32_overwrite", "corpus_truncation"][*kind as usize], role: String::new(), nontrivial: true };
+				if !visit(&m, &|| {
+					let mut b = bytes.clone();
+					match kind {
+						0 => b[p] = *val,
+						1 => {
+							let v: u16 = [0, 1, 0x7fff, 0x8000, 0xffff, *val as u16, 0x100, 0xfffe][(*val % 8) as usize];
+							for (i, x) in v.to_be_bytes().iter().enumerate() {
+								if p + i < b.len() {
+									b[p + i] = *x;
+								}
+							}
+						}
+						2 => {
+							let v: u32 = [0, 1, 0x7fff_ffff, 0x8000_0000, 0xffff_ffff, 0xffff_fff0, 0x10000, (b.len() - p) as u32][(*val % 8) as usize];
+							for (i, x) in v.to_be_bytes().iter().enumerate() {
+								if p + i < b.len() {
+									b[p + i] = *x;
+								}
+							}
+						}
+						_ => b.truncate(p),
+					}
+					b
+				}) {
+					return;
+				}
+			}
+		}
+	}
 	for (fault, bytes) in hostile_class_files(thorough) {
 		for target in [Target::DukeTree, Target::DukeUnit] {
 			if !visit(&Meta { target, fault, role: String::new(), nontrivial: true }, &|| bytes.clone()) {
